@@ -14,6 +14,7 @@ import GoNeat.Proofs.WFPop
 import GoNeat.Proofs.WFMate2
 import GoNeat.Proofs.WFStep
 import GoNeat.Proofs.WFClose
+import GoNeat.Proofs.WFPrepare
 import GoNeat.Props.C04
 import GoNeat.Props.C05
 import GoNeat.Props.C06
@@ -1251,6 +1252,358 @@ theorem reproduceOne_closed (o : EpochOpts W) (generation : Int) (s : Species W)
                           obtain ⟨rfl, _⟩ := h
                           exact pool_finish (gB := child) (by simp [newOrganism]) hP fc
 
+theorem reproduceLoop_closed (o : EpochOpts W) (generation : Int) (s : Species W) (sorted : List (Species W))
+    (champ : Org W) (n : Nat) (count : Int) (st st' : ReproState W) (rs rs' : List Nat) (P0 : List (Genome W))
+    (hchamp : champ.genome ∈ P0) (hs : ∀ x ∈ s.orgs, x.genome ∈ P0)
+    (hsorted : ∀ sp ∈ sorted, ∀ x ∈ sp.orgs, x.genome ∈ P0)
+    (hP : PoolOk st.reg (poolOf P0 st))
+    (h : reproduceLoop o generation s sorted champ n count st rs = .ok (st', rs')) : PoolOk st'.reg (poolOf P0 st') := by
+  induction n generalizing count st rs with
+  | zero => unfold reproduceLoop at h; cases h; exact hP
+  | succ k ih =>
+    unfold reproduceLoop at h
+    split at h
+    · cases h
+    · rename_i st1 rs1 h1
+      exact ih _ _ _ (reproduceOne_closed o generation s sorted champ count st st1 rs rs1 P0 hchamp hs hsorted hP h1) h
+
+/-- **`Species.reproduce` keeps the pool invariant** for the pool extended by all its babies -/
+theorem reproduceSpecies_closed (o : EpochOpts W) (generation : Int) (s : Species W) (sorted : List (Species W))
+    (reg reg' : Reg W) (uid uid' : Nat) (rs rs' : List Nat) (babies : List (Org W)) (P0 : List (Genome W))
+    (hs : ∀ x ∈ s.orgs, x.genome ∈ P0) (hsorted : ∀ sp ∈ sorted, ∀ x ∈ sp.orgs, x.genome ∈ P0)
+    (hP : PoolOk reg P0)
+    (h : reproduceSpecies o generation s sorted reg uid rs = .ok ((babies, reg', uid'), rs')) :
+    PoolOk reg' (P0 ++ babies.map (·.genome)) := by
+  unfold reproduceSpecies at h
+  split at h
+  · split at h <;> cases h
+  · rename_i champ hchamp
+    simp only at h
+    split at h
+    · cases h
+    · rename_i st rs1 hloop
+      simp only [Except.ok.injEq, Prod.mk.injEq] at h
+      obtain ⟨⟨rfl, rfl, _⟩, _⟩ := h
+      have := reproduceLoop_closed o generation s sorted champ _ 0 _ st rs rs1 P0
+        (hs champ (List.mem_of_mem_head? hchamp)) hs hsorted (by simpa [poolOf] using hP) hloop
+      exact this
+
+theorem reproduceAll_closed (o : EpochOpts W) (generation : Int) (sorted ss : List (Species W)) (reg reg' : Reg W)
+    (uid uid' : Nat) (babies babies' : List (Org W)) (rs rs' : List Nat) (P0 : List (Genome W))
+    (hss : ∀ s ∈ ss, ∀ x ∈ s.orgs, x.genome ∈ P0) (hsorted : ∀ sp ∈ sorted, ∀ x ∈ sp.orgs, x.genome ∈ P0)
+    (hP : PoolOk reg (P0 ++ babies.map (·.genome)))
+    (h : reproduceAll o generation sorted ss reg uid babies rs = .ok ((babies', reg', uid'), rs')) :
+    PoolOk reg' (P0 ++ babies'.map (·.genome)) := by
+  induction ss generalizing reg uid babies rs with
+  | nil =>
+    unfold reproduceAll at h
+    simp only [Except.ok.injEq, Prod.mk.injEq] at h
+    obtain ⟨⟨rfl, rfl, _⟩, _⟩ := h
+    exact hP
+  | cons s t ih =>
+    unfold reproduceAll at h
+    split at h
+    · cases h
+    · rename_i bs reg1 uid1 rs1 hsp
+      have h1 := reproduceSpecies_closed o generation s sorted reg reg1 uid uid1 rs rs1 bs (P0 ++ babies.map (·.genome))
+        (fun x hx => List.mem_append_left _ (hss s (by simp) x hx))
+        (fun sp hsp' x hx => List.mem_append_left _ (hsorted sp hsp' x hx)) hP hsp
+      exact ih _ _ _ _ (fun s' hs' => hss s' (List.mem_cons_of_mem _ hs')) (by simpa [List.append_assoc] using h1) h
+
+/-! ## population-level closure, part 4: a whole epoch, and any number of epochs -/
+
+/-- the genomes a population holds -/
+def genomesOfPop (p : Pop W) : List (Genome W) := (allOrgs p).map (·.genome)
+
+omit [Scalar W] in
+theorem mem_genomesOfPop {p : Pop W} {g : Genome W} : g ∈ genomesOfPop p ↔ ∃ s ∈ p.species, ∃ x ∈ s.orgs, x.genome = g := by
+  unfold genomesOfPop
+  simp only [List.mem_map, mem_allOrgs]
+  constructor
+  · rintro ⟨x, ⟨s, hs, hx⟩, e⟩; exact ⟨s, hs, x, hx, e⟩
+  · rintro ⟨s, hs, x, hx, e⟩; exact ⟨x, ⟨s, hs, hx⟩, e⟩
+
+omit [Scalar W] in
+theorem PoolOk.subset {reg : Reg W} {P P' : List (Genome W)} (h : PoolOk reg P) (hsub : ∀ g ∈ P', g ∈ P) : PoolOk reg P' :=
+  fun g hg => let f := h g (hsub g hg)
+    ⟨f.wft, f.nomod, f.rinv, f.hbr, fun b hb => f.nodes b (hsub b hb), fun b hb => f.head b (hsub b hb)⟩
+
+omit [Scalar W] in
+/-- renumbering genome ids keeps the pool invariant -/
+theorem PoolOk.reid {reg : Reg W} {P P' : List (Genome W)} (h : PoolOk reg P)
+    (hre : ∀ g' ∈ P', ∃ g ∈ P, g' = { g with id := g'.id }) : PoolOk reg P' := by
+  intro g' hg'
+  obtain ⟨g, hg, e⟩ := hre g' hg'
+  have f := h g hg
+  have hs : SameSkel g ({ g with id := g'.id } : Genome W) := ⟨rfl, rfl, rfl, rfl⟩
+  rw [e]
+  refine ⟨hs.wft f.wft.wf.traitRefs f.wft, f.nomod, hs.regInv reg f.rinv, f.hbr, ?_, ?_⟩
+  · intro b' hb'
+    obtain ⟨b, hb, eb⟩ := hre b' hb'
+    rw [eb]; exact f.nodes b hb
+  · intro b' hb'
+    obtain ⟨b, hb, eb⟩ := hre b' hb'
+    rw [eb]; exact f.head b hb
+
+omit [Scalar W] in
+/-- forgetting the generation's innovation records keeps the pool invariant -/
+theorem PoolOk.clear {reg : Reg W} {P : List (Genome W)} (h : PoolOk reg P) : PoolOk { reg with records := [] } P := by
+  intro g hg
+  have f := h g hg
+  exact ⟨f.wft, f.nomod, ⟨by intro i hi; simp at hi, f.rinv.above, ⟨by intro i hi; simp at hi, by intro i hi; simp at hi⟩⟩,
+         by intro h0 _ i hi; simp at hi, f.nodes, f.head⟩
+
+omit [Scalar W] in
+theorem renumber_mem (l : List (Org W)) (k : Int) : ∀ x ∈ renumber l k, ∃ y ∈ l, x.genome = { y.genome with id := x.genome.id } := by
+  induction l generalizing k with
+  | nil => unfold renumber; simp
+  | cons a t ih =>
+    unfold renumber
+    intro x hx
+    rcases List.mem_cons.mp hx with rfl | h
+    · exact ⟨a, by simp, rfl⟩
+    · obtain ⟨y, hy, e⟩ := ih _ x h
+      exact ⟨y, List.mem_cons_of_mem _ hy, e⟩
+
+omit [Scalar W] in
+theorem purgeOrAgeLoop_mem (ss : List (Species W)) (k : Int) : ∀ s' ∈ purgeOrAgeLoop ss k, ∀ x ∈ s'.orgs,
+    ∃ s ∈ ss, ∃ y ∈ s.orgs, x.genome = { y.genome with id := x.genome.id } := by
+  induction ss generalizing k with
+  | nil => unfold purgeOrAgeLoop; simp
+  | cons s t ih =>
+    unfold purgeOrAgeLoop
+    split
+    · intro s' hs' x hx
+      obtain ⟨s0, hs0, y, hy, e⟩ := ih _ s' hs' x hx
+      exact ⟨s0, List.mem_cons_of_mem _ hs0, y, hy, e⟩
+    · intro s' hs' x hx
+      rcases List.mem_cons.mp hs' with rfl | h
+      · obtain ⟨y, hy, e⟩ := renumber_mem _ _ x hx
+        exact ⟨s, by simp, y, hy, e⟩
+      · obtain ⟨s0, hs0, y, hy, e⟩ := ih _ s' h x hx
+        exact ⟨s0, List.mem_cons_of_mem _ hs0, y, hy, e⟩
+
+omit [Scalar W] in
+theorem finalize_closed (X : List (Genome W)) (p : Pop W) (h : PoolOk p.reg (X ++ genomesOfPop p)) :
+    PoolOk (finalizeReproduction p).reg (X ++ genomesOfPop (finalizeReproduction p)) := by
+  unfold finalizeReproduction
+  simp only
+  have h1 : PoolOk p.reg (X ++ genomesOfPop (purgeOrAgeSpecies (purgeOldGeneration p))) := by
+    apply h.reid
+    intro g' hg'
+    rcases List.mem_append.mp hg' with hx | hg'
+    · exact ⟨g', List.mem_append_left _ hx, rfl⟩
+    · obtain ⟨s', hs', x, hx, rfl⟩ := mem_genomesOfPop.mp hg'
+      unfold purgeOrAgeSpecies at hs'
+      simp only at hs'
+      obtain ⟨s0, hs0, y, hy, e⟩ := purgeOrAgeLoop_mem _ _ s' hs' x hx
+      unfold purgeOldGeneration at hs0
+      simp only at hs0
+      obtain ⟨s1, hs1, rfl⟩ := List.mem_map.mp hs0
+      exact ⟨y.genome, List.mem_append_right _ (mem_genomesOfPop.mpr ⟨s1, hs1, y, (List.mem_filter.mp hy).1, rfl⟩), e⟩
+  exact h1.clear
+
+/-- **the reproduction phase followed by finalisation keeps the pool invariant**: every genome of the new
+    generation is well-formed, they are pairwise of one node lineage and share their first gene, and the registry
+    invariant holds for each.  `X` is a list of ghost members (e.g. the start genome) carried along. -/
+theorem reproduce_finalize_closed (X : List (Genome W)) (o : EpochOpts W) (generation : Int) (p1 p2 : Pop W) (ex : ExecState)
+    (rs rs' : List Nat) (hP : PoolOk p1.reg (X ++ genomesOfPop p1)) (h : reproducePhase o generation p1 ex rs = .ok (p2, rs')) :
+    PoolOk (finalizeReproduction p2).reg (X ++ genomesOfPop (finalizeReproduction p2)) := by
+  unfold reproducePhase at h
+  simp only at h
+  split at h
+  · cases h
+  · rename_i babies reg uid rs1 hall
+    split at h
+    · cases h
+    · split at h
+      · cases h
+      · rename_i p2' hsp
+        simp only [Except.ok.injEq, Prod.mk.injEq] at h
+        obtain ⟨rfl, _⟩ := h
+        have hmem : ∀ s ∈ p1.species, ∀ x ∈ s.orgs, x.genome ∈ X ++ genomesOfPop p1 :=
+          fun s hs x hx => List.mem_append_right _ (mem_genomesOfPop.mpr ⟨s, hs, x, hx, rfl⟩)
+        have hall' := reproduceAll_closed o generation _ p1.species p1.reg reg p1.nextUid uid [] babies rs rs1
+          (X ++ genomesOfPop p1) hmem
+          (fun sp hsp x hx => by
+            obtain ⟨i, _, hi⟩ := List.mem_filterMap.mp hsp
+            exact hmem sp (List.mem_of_find?_eq_some hi) x hx)
+          (by simpa using hP) hall
+        obtain ⟨horgs, hreg⟩ := speciate_orgs o _ _ _ hsp
+        apply finalize_closed
+        rw [hreg]
+        apply hall'.subset
+        intro g hg
+        rcases List.mem_append.mp hg with hx | hg
+        · exact List.mem_append_left _ (List.mem_append_left _ hx)
+        · obtain ⟨s, hs, x, hx, rfl⟩ := mem_genomesOfPop.mp hg
+          rcases horgs x (mem_allOrgs.mpr ⟨s, hs, hx⟩) with h' | h'
+          · obtain ⟨s0, hs0, hx0⟩ := mem_allOrgs.mp h'
+            exact List.mem_append_left _ (List.mem_append_right _ (mem_genomesOfPop.mpr ⟨s0, hs0, x, hx0, rfl⟩))
+          · exact List.mem_append_right _ (List.mem_map_of_mem h')
+
+/-- **C01, epoch closure.**  If every genome of a population fits (`PoolOk`: well-formed, pairwise of one node lineage,
+    sharing the first gene, registry invariant), then so does every genome of the population `NextEpoch` returns —
+    for every fitness assignment, every option setting and every random stream. -/
+theorem nextEpoch_closed (X : List (Genome W)) (o : EpochOpts W) (generation : Int) (p p' : Pop W) (rs rs' : List Nat)
+    (hP : PoolOk p.reg (X ++ genomesOfPop p)) (h : nextEpoch o generation p rs = .ok (p', rs')) :
+    PoolOk p'.reg (X ++ genomesOfPop p') := by
+  unfold nextEpoch at h
+  split at h
+  · cases h
+  · rename_i p1 ex rs1 hprep
+    split at h
+    · cases h
+    · rename_i p2 rs2 hrep
+      simp only [Except.ok.injEq, Prod.mk.injEq] at h
+      obtain ⟨rfl, _⟩ := h
+      obtain ⟨hsub, hreg⟩ := prepare_genomes o p p1 ex rs rs1 hprep
+      have hP1 : PoolOk p1.reg (X ++ genomesOfPop p1) := by
+        rw [hreg]
+        apply hP.subset
+        intro g hg
+        rcases List.mem_append.mp hg with hx | hg
+        · exact List.mem_append_left _ hx
+        · obtain ⟨s, hs, x, hx, rfl⟩ := mem_genomesOfPop.mp hg
+          obtain ⟨s0, hs0, y, hy, e⟩ := hsub s hs x hx
+          exact List.mem_append_right _ (mem_genomesOfPop.mpr ⟨s0, hs0, y, hy, e⟩)
+      exact reproduce_finalize_closed X o generation p1 p2 ex rs1 rs2 hP1 hrep
+
+/-- what happens to a population between and during epochs: fitness evaluation changes no genome and not the
+    registry; an epoch is `nextEpoch` with any options, generation number and random stream -/
+inductive Evolves : Pop W → Pop W → Prop where
+  | refl (p : Pop W) : Evolves p p
+  | eval {p q r : Pop W} : Evolves p q → (∀ g ∈ genomesOfPop r, g ∈ genomesOfPop q) → r.reg = q.reg → Evolves p r
+  | epoch {p q r : Pop W} (o : EpochOpts W) (generation : Int) (rs rs' : List Nat) :
+      Evolves p q → nextEpoch o generation q rs = .ok (r, rs') → Evolves p r
+
+/-- **C01, any number of epochs** (induction over the history) -/
+theorem evolves_closed (X : List (Genome W)) (p q : Pop W) (hP : PoolOk p.reg (X ++ genomesOfPop p)) (h : Evolves p q) :
+    PoolOk q.reg (X ++ genomesOfPop q) := by
+  induction h with
+  | refl => exact hP
+  | eval _ hsub hreg ih =>
+    rw [hreg]
+    apply ih.subset
+    intro g hg
+    rcases List.mem_append.mp hg with hx | hg
+    · exact List.mem_append_left _ hx
+    · exact List.mem_append_right _ (hsub g hg)
+  | epoch o generation rs rs' _ hstep ih => exact nextEpoch_closed X o generation _ _ rs rs' ih hstep
+
+/-- **a spawned population satisfies the pool invariant**, together with its start genome as ghost member -/
+theorem spawn_poolOk (o : EpochOpts W) (g : Genome W) (rs rs' : List Nat) (p : Pop W) (hw : WFT g) (hm : g.modules = [])
+    (h : spawn o g rs = .ok (p, rs')) : PoolOk p.reg ([g] ++ genomesOfPop p) := by
+  have hall := spawn_wf o g rs rs' p hw hm h
+  have hrec : p.reg.records = [] := by
+    unfold spawn at h
+    split at h
+    · cases h
+    · split at h
+      · cases h
+      · split at h
+        · cases h
+        · split at h
+          · cases h
+          · simp only at h
+            split at h
+            · cases h
+            · rename_i p' hsp
+              simp only [Except.ok.injEq, Prod.mk.injEq] at h
+              obtain ⟨rfl, _⟩ := h
+              rw [(speciate_orgs o _ _ _ hsp).2]
+  -- every member (and the start genome itself) has the start genome's skeleton and satisfies the registry invariant
+  have hsk : ∀ a ∈ [g] ++ genomesOfPop p, WFT a ∧ SameSkel g a ∧ RegInv p.reg a := by
+    intro a ha
+    rcases List.mem_append.mp ha with ha | ha
+    · simp only [List.mem_singleton] at ha
+      subst ha
+      -- some member exists? not needed: the invariant for `a` follows from any member's, via the skeleton; use spawn's
+      -- own computation instead: the start genome satisfies it directly
+      refine ⟨hw, SameSkel.refl _, ?_⟩
+      unfold spawn at h
+      split at h
+      · cases h
+      · split at h
+        · cases h
+        · split at h
+          · cases h
+          · rename_i lastNode hln
+            split at h
+            · cases h
+            · rename_i nextInn hni
+              simp only at h
+              split at h
+              · cases h
+              · rename_i p' hsp
+                simp only [Except.ok.injEq, Prod.mk.injEq] at h
+                obtain ⟨rfl, _⟩ := h
+                rw [(speciate_orgs o _ _ _ hsp).2]
+                refine ⟨by intro i hi; simp at hi, ⟨?_, ?_⟩, ⟨by intro i hi; simp at hi, by intro i hi; simp at hi⟩⟩
+                · intro x hx
+                  unfold Genome.nextGeneInnov at hni
+                  cases hl : a.genes.getLast? with
+                  | none => rw [hl] at hni; cases hni
+                  | some last =>
+                    rw [hl, hm] at hni
+                    simp only [List.getLast?_nil, Except.ok.injEq] at hni
+                    have := sorted_le_last a.genes hw.wf.genesSorted last hl x hx
+                    show x.inn ≤ nextInn - 1
+                    omega
+                · intro n hn
+                  unfold Genome.lastNodeId at hln
+                  cases hl : a.nodes.getLast? with
+                  | none => rw [hl] at hln; cases hln
+                  | some last =>
+                    rw [hl, hm] at hln
+                    simp only [List.foldl_nil, Except.ok.injEq] at hln
+                    have := nodes_le_last a.nodes hw.wf.nodesSorted last hl n hn
+                    show n.id ≤ lastNode + 1
+                    omega
+    · obtain ⟨sa, hsa, xa, hxa, rfl⟩ := mem_genomesOfPop.mp ha
+      obtain ⟨wa, _, ska, ia⟩ := hall xa (mem_allOrgs.mpr ⟨sa, hsa, hxa⟩)
+      exact ⟨wa, ska, ia⟩
+  intro a ha
+  obtain ⟨wa, ska, ia⟩ := hsk a ha
+  refine ⟨wa, by rw [ska.mods]; exact hm, ia, by intro h0 _ i hi; rw [hrec] at hi; simp at hi, ?_, ?_⟩
+  · intro b hb
+    obtain ⟨_, skb, _⟩ := hsk b hb
+    refine ⟨?_, by rw [ska.tids, skb.tids], by rw [ioIds_of_shape g _ ska.nodes, ioIds_of_shape g _ skb.nodes]⟩
+    intro n hn m hm' e
+    obtain ⟨n0, hn0, en⟩ := exists_of_map_eq Node.shape ska.nodes hn
+    obtain ⟨m0, hm0, em⟩ := exists_of_map_eq Node.shape skb.nodes hm'
+    unfold Node.shape at en em
+    simp only [Prod.mk.injEq] at en em
+    rw [← en.2, ← em.2, node_unique g.nodes hw.wf.nodesSorted n0 m0 hn0 hm0 (by rw [en.1, em.1, e])]
+  · intro b hb
+    obtain ⟨_, skb, _⟩ := hsk b hb
+    unfold SharedHead
+    have e1 := congrArg List.head? ska.inns
+    have e2 := congrArg List.head? skb.inns
+    simp only [List.head?_map] at e1 e2
+    rw [e1, e2]
+
+omit [Scalar W] in
+/-- a genome of the start genome's node lineage retains all its input/bias/output nodes -/
+theorem retains_of_nodeLineage (g x : Genome W) (h : NodeLineage x g) : Retains g x := by
+  intro n hn hk
+  have : n.id ∈ ioIds g := mem_ioIds.mpr ⟨n, hn, hk, rfl⟩
+  rw [← h.2.2] at this
+  obtain ⟨m, hm, _, e⟩ := mem_ioIds.mp this
+  exact ⟨m, hm, e, h.1 m hm n hn e⟩
+
+/-- **C01 for whole evolutionary runs**: every genome of every population reachable from a population spawned from a
+    well-formed non-modular start genome — by any number of epochs with any options, any fitness values and any random
+    streams — is well-formed, retains every input/bias/output node of the start genome, and passes every error exit of
+    `Genesis` -/
+theorem evolution_wf (o : EpochOpts W) (g : Genome W) (rs rs' : List Nat) (p q : Pop W) (hw : WFT g) (hm : g.modules = [])
+    (h : spawn o g rs = .ok (p, rs')) (he : Evolves p q) :
+    ∀ x ∈ genomesOfPop q, WFT x ∧ Retains g x ∧ genesisErr x = none ∧ SharedHead x g := by
+  have hq := evolves_closed [g] p q (spawn_poolOk o g rs rs' p hw hm h) he
+  intro x hx
+  have f := hq x (List.mem_append_right _ hx)
+  exact ⟨f.wft, retains_of_nodeLineage g x (f.nodes g (by simp)), genesis_ok x f.wft.wf, f.head g (by simp)⟩
+
 /-! ## known finding K1 (machine-checked witness) and non-vacuity of the hypotheses -/
 
 section Witnesses
@@ -1313,6 +1666,9 @@ example : (geneInsert ev1.genes ⟨4, 2, 4, false, 9, 0, true, none⟩).map (fun
       [(1, 0), (2, 0), (4, 1), (5, 0), (6, 0), (6, 9)] := by decide
 /-- duplication and spawning: the hypotheses (well-formed, non-modular) -/
 example : WFT ev1 ∧ ev1.modules = [] := by decide
+/-- the pool invariant of the population-level theorems holds for the two evolved siblings under their registry
+    (and fails as soon as a member does not share the first gene: the K1 parents) -/
+example : PoolOk evReg [ev1, ev2] ∧ HeadBelowRecords evReg ev1 ∧ ¬ PoolOk { evReg with records := [] } [k1a, k1b] := by decide
 
 /-! concrete successful runs (the `… = ok` hypotheses are satisfiable): a scalar whose unit draw is the raw value
     itself lets a stream steer every branch -/
